@@ -50,6 +50,14 @@ class Report:
                 lines.append("KNOWN-FINDING: property=%s %s: %s (%d events)" % (self.pid, fid, f.get("what", ""), info["count"]))
             else:
                 self.bad.append(("unlisted-deviation:" + fid, info["replay"]))
+        if REPLAY is not None:
+            # --replay: the check is re-executed as a whole (generation and drivers are seeded, so the recorded case
+            # recurs) and only the recorded case decides the exit status
+            want = _replay_key(REPLAY.get("case"))
+            hit = [(r, o) for r, o in self.bad if _replay_key(o) == want]
+            print("REPLAY property=%s case %s: %s" % (self.pid, REPLAY.get("reason"), "reproduced on the real code" if hit else "not reproduced"), flush=True)
+            self.bad = hit
+            lines = []
         seen = 0
         for reason, obj in self.bad:
             violations += 1
@@ -84,6 +92,15 @@ class Report:
         return 0
 
 
+REPLAY = None   # set by ./check --replay <file>
+
+
+def _replay_key(ev):
+    if isinstance(ev, dict):
+        return json.dumps({k: v for k, v in ev.items() if k not in ("msg", "raw")}, sort_keys=True)
+    return json.dumps(ev, sort_keys=True)
+
+
 def digest(obj):
     return hashlib.sha1(json.dumps(obj, sort_keys=True).encode()).hexdigest()[:16]
 
@@ -110,7 +127,120 @@ def validate(ex, scratch, traces, module, cfg, per_jvm=1500, heap="2g", extra_en
     t1 = time.time()
     vals = list(ex.map(run_val, pieces))
     log("validation of %d trace files by %s done in %.1fs" % (len(pieces), module, time.time() - t1))
+    if SELFTEST is not None:
+        corruption_selftest(scratch, module, cfg, vals, heap, extra_env)
     return vals
+
+
+# ------------------------------------------------------------------------------------------------
+# binding self-test: a recorded, accepted trace with ONE observed field corrupted must be rejected at that event
+# ------------------------------------------------------------------------------------------------
+
+SELFTEST = None   # {"results": [...]} while ./check selftest runs
+
+
+def _bump_first_int(x):
+    """Adds 1 to the first integer leaf (depth-first, keys sorted); returns True if one was found."""
+    if isinstance(x, list):
+        for i, v in enumerate(x):
+            if isinstance(v, bool):
+                continue
+            if isinstance(v, int):
+                x[i] = v + 1
+                return True
+            if _bump_first_int(v):
+                return True
+    elif isinstance(x, dict):
+        for k in sorted(x):
+            v = x[k]
+            if isinstance(v, bool):
+                continue
+            if isinstance(v, int):
+                x[k] = v + 1
+                return True
+            if _bump_first_int(v):
+                return True
+    return False
+
+
+def _corrupt(module, evs, i):
+    """Returns (description, corrupted copy of evs[i]) or None when event i is no candidate."""
+    ev = json.loads(json.dumps(evs[i]))
+    ok = ev.get("res", "ok") == "ok"
+    if module == "TraceOps":
+        if ok and ev["post"]["items"]:
+            ev["post"]["items"][0]["e"] += 1
+            return "end of the first cue after the call +1", ev
+    elif module == "TraceLinear":
+        if ok and ev.get("contentOK"):
+            ev["contentOK"] = False
+            return "content-untouched flag cleared", ev
+    elif module == "TraceScanner":
+        if ok and isinstance(ev.get("out"), list) and ev["out"] and ev.get("kind") != "fault":
+            ev["out"] = ev["out"][:-1]
+            return "last token returned by the scanner dropped", ev
+    elif module in ("TraceIO", "TraceWriters"):
+        if ok and i > 0 and ev.get("digest") and not ev.get("first") and evs[i - 1].get("digest") == ev.get("digest"):
+            ev["digest"] = "0" * len(ev["digest"])
+            return "digest of the result replaced", ev
+    elif module == "TraceTime":
+        if ok and isinstance(ev.get("back"), list) and _bump_first_int(ev["back"]):
+            return "re-read instant +1", ev
+    elif module in ("TraceSrt", "TraceVtt", "TraceSsa", "TraceTtml", "TraceStl", "TraceTeletext"):
+        if ok and _bump_first_int(ev.get("post")):
+            return "first integer of the projected result +1", ev
+    elif module == "TraceTotality":
+        if isinstance(ev.get("res"), list) and ev["res"] and all(x in ("ok", "err") for x in ev["res"]):
+            ev["res"][-1] = "panic"
+            return "outcome of the last call on this input replaced by panic", ev
+    elif module == "TraceConc":
+        if ev.get("mode") in ("gated", "free") and ev.get("digest") not in ("", "ERR", None):
+            ev["digest"] = "0" * len(ev["digest"])
+            return "digest of a concurrent call's result replaced", ev
+    elif module == "TraceSession":
+        # last open of a library history that is certainly inside the scope
+        if ev.get("ev") == "open" and ok and ev["cues"] and i > 0 and evs[i - 1].get("ev") == "write" and evs[i - 1].get("res") == "ok":
+            j = i
+            while not evs[j].get("first"):
+                j -= 1
+            h = evs[j:i + 1]
+            if all(e.get("grid", True) for e in h) and not any(e.get("norep") for e in h) and not any(e["ev"] == "budget" for e in h):
+                ev["cues"][0][1] += 3
+                return "end of the first cue of the re-read destination +1 ms", ev
+    return None
+
+
+def corruption_selftest(scratch, module, cfg, vals, heap, extra_env):
+    done = [r for r in SELFTEST["results"] if r["module"] == module and r["detected"]]
+    if len(done) >= 2 or not vals:
+        return
+    path, r0 = vals[0]
+    flagged = set(int(v[1]) for v in r0.verdicts)
+    with open(path) as f:
+        evs = [json.loads(l) for l in f]
+    tried = 0
+    for i in range(len(evs)):
+        if (i + 1) in flagged:
+            continue
+        c = _corrupt(module, evs, i)
+        if c is None:
+            continue
+        what, ev = c
+        tried += 1
+        cp = path + ".corrupt%d" % tried
+        with open(cp, "w") as f:
+            for j, e in enumerate(evs):
+                f.write(json.dumps(ev if j == i else e) + "\n")
+        env = {"TRACE": cp}
+        env.update(extra_env or {})
+        r = tlc(scratch, module, cfg, env=env, workers=1, timeout=3000, heap=heap)
+        hit = any(int(v[1]) == i + 1 for v in r.verdicts) if r.ok else False
+        SELFTEST["results"].append({"module": module, "line": i + 1, "corruption": what, "detected": hit, "tlc_ok": r.ok})
+        log("selftest %s: %s at event %d -> %s" % (module, what, i + 1, "rejected" if hit else "ACCEPTED"))
+        if tried >= 2:
+            break
+    if tried == 0:
+        SELFTEST["results"].append({"module": module, "line": 0, "corruption": "no candidate event", "detected": False, "tlc_ok": True})
 
 
 def collect(rep, vals, pid, nontrivial=None, key=None, is_first=lambda ev: ev.get("first", True), sample_ok=None):
@@ -906,7 +1036,30 @@ def check_teletext(pid, tier, seed, scratch, replay):
 
 
 def selftest(pid, tier, seed, scratch, replay):
-    raise Infra("selftest not implemented yet")
+    """Demonstrates the binding of every trace specification: each property's quick check is run, and after each
+    trace validation one accepted trace file is re-validated with a single observed field corrupted; the trace
+    specification must flag exactly that event."""
+    global SELFTEST
+    SELFTEST = {"results": []}
+    rcs = {}
+    try:
+        for p in sorted(REGISTRY):
+            rcs[p] = REGISTRY[p](p, "quick", seed, scratch, None)
+        res = SELFTEST["results"]
+    finally:
+        SELFTEST = None
+    mods = sorted(set(r["module"] for r in res))
+    bad = [r for r in res if not r["detected"]]
+    for m in mods:
+        rs = [r for r in res if r["module"] == m]
+        print("SELFTEST %s: %d corruption(s), %d rejected" % (m, len(rs), sum(1 for r in rs if r["detected"])), flush=True)
+    json.dump({"results": res, "check_exit_codes": rcs}, open(os.path.join(vlib.VERIF, "selftest_result.json"), "w"), indent=1)
+    if bad or any(rcs.values()):
+        for r in bad:
+            print("SELFTEST-FAILED %s event %d (%s) was accepted" % (r["module"], r["line"], r["corruption"]), flush=True)
+        return 2
+    print("SELFTEST OK: %d trace specifications, %d corrupted events rejected" % (len(mods), len(res)), flush=True)
+    return 0
 
 
 # ------------------------------------------------------------------------------------------------
